@@ -33,7 +33,9 @@ ALL_INV = [i for p in MC_INV.values() for i in p if i not in ("Terminates", "Tem
 
 CLAUSE = {
     "C01": {"final_value_differs_from_sequential", "requested_output_missing", "DeliveredAll", "P_fetched",
-            "P_fetchQ_missing", "requested_outputs_never_returned"},
+            "P_fetchQ_missing", "requested_outputs_never_returned",
+            # a job submitted through the gateway is handed its values by the Reporter's result uploads
+            "uploaded_result_differs_from_sequential", "result_uploads_differ"},
     "C02": {"assign_task_not_computable", "assign_worker_busy", "assign_gpu", "assign_prep_not_exact",
             "assign_publish_set_differs", "dispatched_twice", "dispatched_to_busy_worker", "dispatched_without_gpu",
             "input_not_produced", "input_neither_present_nor_commanded", "ran_without_input", "DispatchOnce",
